@@ -63,16 +63,26 @@ func genC10(seed uint64, tier string) *plan.Plan {
 		p.Cluster.MaxIdleMs = w
 		nkeys := r.Range(2, 10)
 		for i := 0; i < nkeys; i++ {
-			sc.Ops = append(sc.Ops, ent(plan.Op{K: "put", Key: fmt.Sprintf("i%d", i), Val: "v"}))
+			sc.Ops = append(sc.Ops, ent(plan.Op{K: "put", Key: fmt.Sprintf("i%d", i), Val: "v000.0"}))
 		}
 		// active period: some keys are kept alive by touching them inside the window, the others are left alone
 		alive := r.Range(1, nkeys)
+		touchBase := r.Intn(3)
 		for i, nops := 0, r.Range(10, 60); i < nops; i++ {
 			sc.Ops = append(sc.Ops, plan.Op{K: "ctl.sleep", Dur: int64(Pick(r, 1, w/8, w/4, w/3))})
 			for j := 0; j < alive; j++ {
 				k := fmt.Sprintf("i%d", j)
-				if r.Bool(250) {
-					sc.Ops = append(sc.Ops, ent(plan.Op{K: "put", Key: k, Val: fmt.Sprintf("w%d.%d", i, j)}))
+				// how a key is kept alive is fixed per key: only by reads, only by rewrites (values of
+				// one length, so that an overwrite can reuse the stored entry), or by both
+				put := r.Bool(250)
+				switch (j + touchBase) % 3 {
+				case 0:
+					put = false
+				case 1:
+					put = !r.Bool(150) // an occasional read shows whether the rewrites kept it alive
+				}
+				if put {
+					sc.Ops = append(sc.Ops, ent(plan.Op{K: "put", Key: k, Val: fmt.Sprintf("w%03d.%d", i, j)}))
 				} else {
 					sc.Ops = append(sc.Ops, ent(plan.Op{K: "get", Key: k}))
 				}
